@@ -349,18 +349,3 @@ Definition conv_v2_now := conv_v2 dispatch_reraises v2_flag_reset_on_failure v2_
 Definition ex_cfg := mkV 2 2 true.
 Definition ex_user (t : nat) := "user".
 Definition ex_llm (t : nat) := "LLM".
-
-Example v1_input_fault :
-  fst (conv_v1 false true (fun t s o => match t, s with 0, SIn 1 => ORaise | _, _ => OAccept end)
-               ex_user ex_llm "REFUSED" ex_cfg 0 2 [])
-  = [mkObs (TReply [v1_internal_error_message]) [(SIn 0, Some "user"); (SIn 1, Some "user")] 0;
-     mkObs (TReply ["LLM"]) [(SIn 0, Some "user"); (SIn 1, Some "user"); (SDialog, None); (SRet, None);
-                             (SOut 0, Some "LLM"); (SOut 1, Some "LLM")] 2].
-Proof. vm_compute. reflexivity. Qed.
-
-(* the shipped compute_context (honours = false): a dialog fault in turn 0 makes every later turn a refusal *)
-Example v1_stale_refusal :
-  map o_res (fst (conv_v1 false false (fun t s o => match t, s with 0, SDialog => ORaise | _, _ => OAccept end)
-                          ex_user ex_llm "REFUSED" ex_cfg 0 2 []))
-  = [TReply [v1_internal_error_message]; TReply ["REFUSED"]].
-Proof. vm_compute. reflexivity. Qed.
